@@ -91,7 +91,7 @@ CLAIMED = {
    note="Trusted: Coq kernel; translator printing; INI lexing by generation; differential comparison of potable outputs runs in the implementation. No axioms.",
    technique="Coq proof over translated decision procedure + state-machine induction + vm_compute correspondence", ref="DESIGN.md section 4 C13"),
  'C14': dict(
-   text="Coq theorems over model/Store.v: for every sequence of override/remove/add operations, applying them to the parsed store equals parsing the hand-edited file, and an operation that cannot be made by hand is a configuration error in both (c14_equiv, induction over the operation list); the potable command line (all overrides, then all removals, then all additions, in the order given, nothing collated) is that sequence of operations (c14_cli_equiv) and an item named by two --remove-item options is refused whatever else is on the command line (c14_cli_remove_twice); the edited store is duplicate free; keys are addressed irrespective of whitespace; --list-items is complete with one line per item. "
+   text="Coq theorems over model/Store.v: for every sequence of override/remove/add operations, applying them to the parsed store equals parsing the hand-edited file, and an operation that cannot be made by hand is a configuration error in both (c14_equiv, induction over the operation list); the potable command line (all overrides, then all removals, then all additions, in the order given, nothing collated) is that sequence of operations (c14_cli_equiv) and an item named by two --remove-item options is refused whatever else is on the command line (c14_cli_remove_twice); down to characters, the hand-edited file printed in any key spelling is read by the line parser (model/Ini.v) as exactly the store the operations produce (c14_edited_file_text, proof/StoreText.v: the model's printer is compared with the harness' printer and text_store with the raw parser on every run); the edited store is duplicate free; keys are addressed irrespective of whitespace; --list-items is complete with one line per item. "
         "Tie: exact-body assertions of _init_config_parser / _make_config_parser / _create_override_tuple; resulting stores of ConfigParser(overrides=, additional=) and --list-items output of the potable CLI compared by vm_compute; outputs of operations vs hand-edited files compared.",
    note="Trusted: Coq kernel; hand-written store model tied by AST assertions + behavioural comparison; INI lexing by generation (stdlib configparser). Reading: removing a section's last item by hand also removes its header. No axioms.",
    technique="Coq proof (commutation by induction over operations) over a store model + vm_compute correspondence", ref="DESIGN.md section 4 C14"),
@@ -129,7 +129,7 @@ CLAIMED = {
  'C20': dict(
    text="Coq theorems over model/Duplicates.v: a second definition of the same pair interaction in either species order is rejected and an accepted [Pair] section defines every interaction once; two lines of one section differing only in whitespace are rejected by the parse; "
         "an accepted file binds every pair interaction and every potential-form label (formula or table form) to exactly one definition and shadows no built-in form (c20_unique_binding). "
-        "Tie: optionxform/_key_transform/_check_for_duplicate_pairs asserted on the AST; accept/reject verdict of generated models with one entry duplicated in 13 ways compared with Configuration().read. Character level (model/Ini.v): after any well-formed file a second header with the name of an earlier section (other than [Variables]) or a further option of the last section whose key equals an earlier one after optionxform - i.e. up to blanks and tabs anywhere in it (c20_key_blanks) - makes the parse fail (c20_duplicate_section_text, c20_duplicate_option_text); parse_ini is compared with the raw parser of the repository on generated files on every run.",
+        "Tie: optionxform/_key_transform/_check_for_duplicate_pairs asserted on the AST; accept/reject verdict of generated models with one entry duplicated in 13 ways compared with Configuration().read. Character level (model/Ini.v): after any well-formed file a second header with the name of an earlier section (other than [Variables]) or a further option of the last section whose key equals an earlier one after optionxform - i.e. up to blanks and tabs anywhere in it (c20_key_blanks) - makes the parse fail (c20_duplicate_section_text, c20_duplicate_option_text); parse_ini is compared with the raw parser of the repository on generated files on every run. Store model and characters agree (proof/StoreText.v): xform (key_text k sp) = canon k for every spelling of every key (c20_key_spellings) and, when Store.parse accepts, the printed file (spellings, either delimiter, continuation lines, empty lines) is read by parse_ini as exactly text_store (c20_store_text); the printer of the model = the printer of the harness and text_store = the raw parser, checked on every generated file.",
    note="Trusted: Coq kernel; hand-written duplicate-check model tied by AST assertions + behavioural comparison; INI lexing by generation. No axioms.",
    technique="Coq proof over a duplicate-check model + vm_compute correspondence", ref="DESIGN.md section 4 C20"),
 }
